@@ -3,7 +3,8 @@ C10 — the `.bib` reader is total: located pybtex errors only, confined to the 
 
 Property theorems only, about the model `Model/BibParse.lean` (`Pybtex.Bib.parseBib`, which the
 correspondence check compares with `pybtex.database.parse_string` in capture and strict mode).
-Helper lemmas: `Lemmas/BibTotal.lean`.
+Helper lemmas: `Lemmas/BibTotal.lean`, `BibNest`, `BibDepth`; `Lemmas/BibLocal.lean` for the positive
+confinement statements at the end (locality of reading, resynchronisation, independence).
 
 `parseBib text strict wanted macros0 roles` returns the final reader state (`db`, the list `errs`
 of problems reported through `handle_error`, the unread `rest`) and the error that left the
@@ -11,6 +12,7 @@ reader (`some e` = raised).  All theorems hold for every text, mode, wanted-set,
 table and person-field list.
 -/
 import PybtexModel.Lemmas.BibDepth
+import PybtexModel.Lemmas.BibLocal
 
 namespace Pybtex.Props
 open Pybtex Pybtex.Bib
@@ -223,5 +225,428 @@ theorem C10_confined_lone_at_neg :
     (parseBib "\n@misc{z, v = 2}\n".toList false none).1.db.entries.map
         (fun e => (e.key, e.origType)) = [("z".toList, "misc".toList)] := by
   decide +kernel
+
+/-! ### Confinement after a malformed entry: the positive statements
+
+`loopStep s` (`Lemmas/BibTotal.lean`) is ONE ROUND of the command loop of `parse_bibliography` /
+`Parser.parse_string` from the loop-top state `s`: skip to the next `@`, read the command
+(`parse_command`, with its own `handle_error`), process it (`process_entry` / `process_preamble`),
+handle a syntax error that escaped.  `.inr s'` = the loop goes on from `s'`; `.inl (s', raised)` =
+the loop stops in state `s'` (`raised = none`: no `@` left; `some e`: `e` left the reader).
+`parseLoop (fuel + 1) s` is `loopStep s` followed by `parseLoop fuel` (`parseLoop_succ`).
+`Step.st` / `Step.err` are the state and the raised error of a round's outcome. -/
+
+/-- example state: the reader after `@misc{p, t = 1}` + line break has been read (line 1, the
+line break still unread) -/
+def exS0 : St := (parseBib "@misc{p, t = 1}\n".toList false none).1
+def exBad : Str := "@misc{k, t = x y}\n".toList
+def exPost : Str := "@misc{z, v = 2}\n".toList
+/-- an entry to insert -/
+def exK : Entry := { key := "k".toList, type := "misc".toList, origType := "misc".toList, fields := [], persons := [] }
+/-- the state after the round on `exBad` alone -/
+def exS1 : St := Step.st (loopStep { exS0 with rest := exBad })
+
+/-- `f` is local at `s`: if the run of `f` on the unread text `s.rest` did not run into the end of
+the text (`Res.stop`: a `PrematureEOF`; the fuel error `internal` never occurs, `C10_total`) and
+stopped strictly before it — it left a character unread, or it raised a syntax error (a syntax
+error other than `PrematureEOF` is always raised in front of, or just behind, a character of the
+text) —, then on `s.rest ++ c`, for EVERY continuation `c`, `f` returns the same value or the same
+error (same line: lines are computed from the consumed text), makes the same state changes, and
+leaves `c` unread behind what it left unread before. -/
+def LocalAt {α : Type} (f : St → Bib.Res α) (s : St) : Prop :=
+  ¬ (f s).stop → ((f s).st.rest ≠ [] ∨ (f s).synFail) →
+    ∀ c, f { s with rest := s.rest ++ c } = (f s).mapSt (fun t => { t with rest := t.rest ++ c })
+
+/-- **Locality of every scanner / parse function** of `LowLevelParser`: `get_token` (= `optional`),
+`required`, `parse_value_part` (strings with their nested braces, numbers, macro names),
+`parse_value`, `parse_field`, `parse_entry_body` (key and all fields), `parse_string_body`.
+(`parse_command`, whose `except` clause turns a syntax error into a reported problem, and the
+processing of the command are covered by `C10_round_local`.) -/
+theorem C10_scan_local (s : St) :
+    (∀ pats, LocalAt (getToken pats) s) ∧ (∀ pats desc, LocalAt (required pats desc) s) ∧
+    LocalAt parseValuePart s ∧ LocalAt parseValue s ∧ LocalAt parseField s ∧
+    (∀ paren, LocalAt (parseEntryBody paren) s) ∧ LocalAt parseStringBody s := by
+  refine ⟨fun pats h1 h2 c => ?_, fun pats desc h1 h2 c => ?_, fun h1 h2 c => ?_, fun h1 h2 c => ?_,
+    fun h1 h2 c => ?_, fun paren h1 h2 c => ?_, fun h1 h2 c => ?_⟩
+  · rw [← Tr.app_c, ← Res.mapR_c]; exact getToken_T _ pats s (Or.inl (Or.inr ⟨h1, h2⟩))
+  · rw [← Tr.app_c, ← Res.mapR_c]; exact required_T _ pats desc s (Or.inl (Or.inr ⟨h1, h2⟩))
+  · rw [← Tr.app_c, ← Res.mapR_c]; exact parseValuePart_T _ s (Or.inr ⟨h1, h2⟩)
+  · rw [← Tr.app_c, ← Res.mapR_c]; exact parseValue_T _ s (Or.inr ⟨h1, h2⟩)
+  · rw [← Tr.app_c, ← Res.mapR_c]; exact parseField_T _ s (Or.inr ⟨h1, h2⟩)
+  · rw [← Tr.app_c, ← Res.mapR_c]; exact parseEntryBody_T _ paren s (Or.inr ⟨h1, h2⟩)
+  · rw [← Tr.app_c, ← Res.mapR_c]; exact parseStringBody_T _ s (Or.inr ⟨h1, h2⟩)
+
+/-- the premises of `LocalAt` occur: `parse_value` on `{a {b} c} # x, u` reads two parts (the
+second an undefined macro, reported) and stops in front of `, u`; on `"a}` it raises "unbalanced
+braces" behind the last character of the text — nothing left unread, still local; whereas on
+`{a` it runs into the end of the text (`PrematureEOF`: not local, cf. `C10_round_local_neg`) -/
+theorem C10_scan_local_nonvacuous :
+    (¬ (parseValue { exS0 with rest := "{a {b} c} # x, u".toList }).stop ∧
+     (parseValue { exS0 with rest := "{a {b} c} # x, u".toList }).st.rest = ", u".toList ∧
+     (parseValue { exS0 with rest := "{a {b} c} # x, u".toList }).st.curValue = ["a {b} c".toList, []] ∧
+     (parseValue { exS0 with rest := "{a {b} c} # x, u".toList }).st.errs
+       = [⟨.undefinedMacro "x".toList, some 1⟩]) ∧
+    (¬ (parseValue { exS0 with rest := "\"a}".toList }).stop ∧
+     (parseValue { exS0 with rest := "\"a}".toList }).synFail ∧
+     (parseValue { exS0 with rest := "\"a}".toList }).st.rest = []) ∧
+    (parseValue { exS0 with rest := "{a".toList }).stop := by
+  decide +kernel
+
+/-- **Locality of reading** ("the reader never looks further than one character beyond what it
+consumes"), for one whole round.  Suppose the round on the unread text `s.rest` alone finds its `@`
+and does not run into the end of the text: no `PrematureEOF` is among the problems it reports
+(`errs` beyond the old ones) and, if an error leaves the reader (strict mode), it is not
+`PrematureEOF` and is raised in front of an unread character.  Then for EVERY continuation `c` the
+round on `s.rest ++ c` has the same outcome: the same command read, the same entry / preamble item
+appended, the same problems with the same line numbers (they are computed from the consumed text),
+the same macro table — and it leaves `c` unread behind what it left unread before.
+(`Step.appRest c` appends `c` to the unread text of the outcome and changes nothing else.)
+`Lemmas/BibLocal.lean` proves the same for every scanner / parse function below
+(`getToken_T`, `required_T`, `strLoop_T`, `parseValue_T`, …, `parseCommand_T`, `processCmd_T`).
+Unlike for a single token, "stopped before the end of the text" is NOT enough here: see
+`C10_round_local_neg`. -/
+theorem C10_round_local (s : St) (c : Str) (hln : 1 ≤ s.ln) (hat : '@' ∈ s.rest)
+    (hE : ∀ e ∈ (Step.st (loopStep s)).errs.drop s.errs.length, e.kind ≠ .prematureEOF)
+    (hR : ∀ e, Step.err (loopStep s) = some e →
+      e.kind ≠ .prematureEOF ∧ (Step.st (loopStep s)).rest ≠ []) :
+    loopStep { s with rest := s.rest ++ c } = Step.appRest c (loopStep s) :=
+  loopStep_local s c hln hat hE hR
+
+/-- **Resynchronisation.**  Unread text `a` that contains no `@` (what a round that reported a
+syntax error left behind, empty or not) does not influence the next round: on `a ++ c` the reader
+skips to the first `@` of `c` and goes on exactly as on `c` alone — with the line counter advanced
+by the line breaks of `a` (`countNl (a ++ c) - countNl c`; this is `countNl a` unless `a` ends in
+`\r` and `c` starts with `\n`).  If `c` has no `@` either, the loop stops. -/
+theorem C10_resync (s : St) (a c : Str) (ha : '@' ∉ a) :
+    ('@' ∉ c → loopStep { s with rest := a ++ c } = .inl ({ s with rest := a ++ c }, none)) ∧
+    ('@' ∈ c → loopStep { s with rest := a ++ c } =
+      loopStep { s with rest := c, ln := s.ln + (countNl (a ++ c) - countNl c) }) :=
+  loopStep_resync s a c ha
+
+/-- `reframe k R n l Pr s`: the state `s` in another context — the line counter is `k` higher (and
+so is the line of every problem reported so far), the problems `R` and the preamble items `Pr` were
+there before everything else, the entries `l` were inserted behind the first `n` entries.  The
+unread text, the macro table, the settings (`strict`, `roles`, wanted-set, citations) and the
+unnamed-entry counter are those of `s`. -/
+def reframe (k : Nat) (R : List Err) (n : Nat) (l : List Entry) (Pr : List Str) (s : St) : St :=
+  { s with ln := s.ln + k, errs := R ++ s.errs.map (shiftErr k),
+           db := { s.db with entries := s.db.entries.take n ++ l ++ s.db.entries.drop n,
+                             preamble := Pr ++ s.db.preamble } }
+
+theorem reframe_eq (k : Nat) (R : List Err) (n : Nat) (l : List Entry) (Pr : List Str) (s : St) :
+    reframe k R n l Pr s = ({ k := k, R := R, n := n, l := l, Pr := Pr } : Tr).app s := by
+  apply St.ext' <;> try rfl
+  show s.rest = s.rest ++ []
+  simp
+
+/-- **Independence of a round from what was read before.**  A round does not depend on the entries,
+preamble items and problems collected so far, nor on the absolute value of the line counter — with
+the single exception of the repeated-key check of `add_entry`.  Precisely: run the round from `s`
+and from `reframe k R n l Pr s` (same unread text, macro table, settings, counter; other problems
+and preamble items in front, entries `l` inserted, lines shifted by `k`).  Unless the second run
+reports (behind the problems it started with) or raises a repeated-entry error for a key of one of
+the inserted entries `l` — keys compared as `add_entry` compares them, by `lower` —, both rounds
+have the same outcome: the second one is the `reframe` of the first (same command, same appended
+entry / preamble item, same new problems with lines shifted by `k`, same macro table, same unread
+text). -/
+theorem C10_round_independent {N : Nat} (s : St) (hI : Inv N s) (k : Nat) (R : List Err) (n : Nat)
+    (l : List Entry) (Pr : List Str) (hn : n ≤ s.db.entries.length)
+    (hK : ∀ key, l.any (fun e => lower e.key = lower key) = true →
+      errRep key ∉ (Step.st (loopStep (reframe k R n l Pr s))).errs.drop (R.length + s.errs.length) ∧
+      Step.err (loopStep (reframe k R n l Pr s)) ≠ some (errRep key)) :
+    loopStep (reframe k R n l Pr s) =
+      match loopStep s with
+      | .inl (s', raised) => .inl (reframe k R n l Pr s', raised.map (shiftErr k))
+      | .inr s' => .inr (reframe k R n l Pr s') := by
+  have h := loopStep_T ({ k := k, R := R, n := n, l := l, Pr := Pr } : Tr) (R.length + s.errs.length) s hI hn
+    (by rw [T_errs_len]; exact Nat.le_refl _) (Or.inl rfl)
+    (by rw [← reframe_eq]; exact hK)
+  rw [← reframe_eq] at h
+  rw [h]
+  cases loopStep s with
+  | inl r => obtain ⟨s', o⟩ := r; simp only [Step.mapT, reframe_eq]
+  | inr s' => simp only [Step.mapT, reframe_eq]
+
+/-- **Confinement after a self-contained command** — the positive counterpart of
+`C10_confined_neg` / `C10_confined_lone_at_neg`.  `S` is any loop-top state, `bad` and `post` any
+texts.  Operational hypotheses, all about the round on `bad` ALONE (`S` with unread text `bad`):
+* `hround`: the loop goes on after it, in state `S1` (it reported its errors, or none);
+* `hE`: it did not run into the end of the text — none of the problems it reported is
+  `PrematureEOF` (this is what "its own braces and quotes are balanced" means operationally: a
+  string or a body left open reads on into `post`);
+* `hat`: what it left unread of `bad` contains no `@` (cf. the two negative witnesses).
+`A` = the run on `bad ++ post`; `B` = the run on `post` alone from the same state `S`, with the
+three things a command hands on to later ones as `bad` left them: macro table (`@string`),
+wanted-set (`crossref` of an entry that was added) and unnamed-entry counter
+(`carry S S1 post`; see `C10_confined_after_partial` for the case that `bad` leaves them alone).
+* `hK`, exception (b): the run `A` does not report (behind the problems of `bad`) or raise a
+  repeated-entry error for the key of the (at most one, `C10_confined_step`) entry that `bad`
+  left behind — i.e. no later entry of `post` reuses that key.
+Then everything read from `post` is what is read from `post` alone: `A`'s entries / preamble items /
+problems are those of the round on `bad` followed by EXACTLY the entries / preamble items /
+problems that `B` adds to those of `S`, the problems with their lines shifted by the line breaks
+in front of `post`; and `A` raises what `B` raises. -/
+theorem C10_confined_after {N : Nat} (S S1 : St) (bad post : Str)
+    (hI : Inv N { S with rest := bad ++ post })
+    (hround : loopStep { S with rest := bad } = .inr S1)
+    (hE : ∀ e ∈ S1.errs.drop S.errs.length, e.kind ≠ .prematureEOF)
+    (hat : '@' ∉ S1.rest) :
+    let A := parseLoop ((bad ++ post).length + 1) { S with rest := bad ++ post }
+    let B := parseLoop (post.length + 1) (carry S S1 post)
+    let δ := countNl (bad ++ post) - countNl post
+    (∀ key, (S1.db.entries.drop S.db.entries.length).any (fun e => lower e.key = lower key) = true →
+        errRep key ∉ A.1.errs.drop S1.errs.length ∧ A.2 ≠ some (errRep key)) →
+    A.1.db.entries = S1.db.entries ++ B.1.db.entries.drop S.db.entries.length ∧
+    A.1.db.preamble = S1.db.preamble ++ B.1.db.preamble.drop S.db.preamble.length ∧
+    A.1.errs = S1.errs ++ (B.1.errs.drop S.errs.length).map (shiftErr δ) ∧
+    A.2 = B.2.map (shiftErr δ) := by
+  intro A B δ hK
+  exact parseLoop_confined S S1 bad post A B hI hround hE hat rfl rfl hK
+
+/-- **Confinement after a self-contained command that hands nothing on.**  If moreover the round on
+`bad` left the macro table, the wanted-set and the unnamed-entry counter as they were, `B` is
+simply the run on `post` alone from `S`: apart from (a) the at most one partial entry of `bad`
+and (b) later entries reusing its key, the malformed command alters nothing that is read after it.
+The two extra hypotheses `hun`, `hw` cannot be dropped (`C10_confined_after_unnamed_neg`,
+`C10_confined_after_wanted_neg`); with `wanted = none` (plain `parse_string`) `hw` always holds. -/
+theorem C10_confined_after_partial {N : Nat} (S S1 : St) (bad post : Str)
+    (hI : Inv N { S with rest := bad ++ post })
+    (hround : loopStep { S with rest := bad } = .inr S1)
+    (hE : ∀ e ∈ S1.errs.drop S.errs.length, e.kind ≠ .prematureEOF)
+    (hat : '@' ∉ S1.rest)
+    (hmac : S1.macros = S.macros) (hun : S1.unnamed = S.unnamed) (hw : S1.db.wanted = S.db.wanted) :
+    let A := parseLoop ((bad ++ post).length + 1) { S with rest := bad ++ post }
+    let B := parseLoop (post.length + 1) { S with rest := post }
+    let δ := countNl (bad ++ post) - countNl post
+    (∀ key, (S1.db.entries.drop S.db.entries.length).any (fun e => lower e.key = lower key) = true →
+        errRep key ∉ A.1.errs.drop S1.errs.length ∧ A.2 ≠ some (errRep key)) →
+    A.1.db.entries = S1.db.entries ++ B.1.db.entries.drop S.db.entries.length ∧
+    A.1.db.preamble = S1.db.preamble ++ B.1.db.preamble.drop S.db.preamble.length ∧
+    A.1.errs = S1.errs ++ (B.1.errs.drop S.errs.length).map (shiftErr δ) ∧
+    A.2 = B.2.map (shiftErr δ) := by
+  intro A B δ hK
+  have e : carry S S1 post = { S with rest := post } := by
+    apply St.ext' <;> try rfl
+    · exact hmac
+    · apply Db.ext' <;> try rfl
+      exact hw
+    · exact hun
+  have := C10_confined_after S S1 bad post hI hround hE hat
+  simp only [e] at this
+  exact this hK
+
+/-- **The same for whole texts**, with the malformed command at the head of the text: if the first
+round of reading `bad` alone goes on (state `S1`), reports no `PrematureEOF`, leaves no `@`
+unread and leaves macro table, unnamed-entry counter and wanted-set as they were initially, then
+reading `bad ++ post` yields what the round on `bad` yielded followed by exactly what reading
+`post` alone yields — entries, preamble items, problems (lines shifted by the line breaks of
+`bad`), raised error — unless a later entry is reported as repeating the key of the partial entry
+of `bad`. -/
+theorem C10_confined_after_head (bad post : Str) (strict : Bool) (wanted : Option (List Str))
+    (macros0 : List (Str × Str)) (roles : List Str) (S1 : St)
+    (hround : loopStep (initSt bad strict wanted macros0 roles) = .inr S1)
+    (hE : ∀ e ∈ S1.errs, e.kind ≠ .prematureEOF)
+    (hat : '@' ∉ S1.rest)
+    (hmac : S1.macros = CIDict.ofPairs macros0) (hun : S1.unnamed = 1)
+    (hw : S1.db.wanted = (initSt bad strict wanted macros0 roles).db.wanted) :
+    let A := parseBib (bad ++ post) strict wanted macros0 roles
+    let B := parseBib post strict wanted macros0 roles
+    let δ := countNl (bad ++ post) - countNl post
+    (∀ key, S1.db.entries.any (fun e => lower e.key = lower key) = true →
+        errRep key ∉ A.1.errs.drop S1.errs.length ∧ A.2 ≠ some (errRep key)) →
+    A.1.db.entries = S1.db.entries ++ B.1.db.entries ∧
+    A.1.db.preamble = S1.db.preamble ++ B.1.db.preamble ∧
+    A.1.errs = S1.errs ++ B.1.errs.map (shiftErr δ) ∧
+    A.2 = B.2.map (shiftErr δ) := by
+  intro A B δ hK
+  have he : (initSt [] strict wanted macros0 roles).db.entries = [] := by cases wanted <;> rfl
+  have hp : (initSt [] strict wanted macros0 roles).db.preamble = [] := by cases wanted <;> rfl
+  have h := C10_confined_after_partial (initSt [] strict wanted macros0 roles) S1 bad post
+    (initSt_inv (bad ++ post) strict wanted macros0 roles) hround
+    (fun e he => hE e he) hat hmac hun hw
+  simp only [he, hp, List.length_nil, List.drop_zero] at h
+  exact h hK
+
+/-! ### Witnesses: the hypotheses are met on concrete texts, and cannot be dropped -/
+
+theorem Step.eq_inr {r : Step} (h : r.isRight = true) : r = .inr (Step.st r) := by
+  cases r with
+  | inl x => cases h
+  | inr s => rfl
+
+theorem CIDict.ext' {a b : CIDict Str} (h1 : a.dict = b.dict) (h2 : a.keys = b.keys) : a = b := by
+  cases a; cases b; simp_all
+
+/-- the hypotheses of `C10_round_local` hold for the malformed `@misc{k, t = x y}` (an undefined
+macro and a missing `}` are reported, `y}` + line break stay unread), so the round is the same in
+front of any continuation — here `exPost`, and the outcome is as computed -/
+theorem C10_round_local_nonvacuous :
+    (1 ≤ ({ exS0 with rest := exBad } : St).ln ∧ '@' ∈ ({ exS0 with rest := exBad } : St).rest ∧
+     (∀ e ∈ (Step.st (loopStep { exS0 with rest := exBad })).errs.drop
+        ({ exS0 with rest := exBad } : St).errs.length, e.kind ≠ .prematureEOF) ∧
+     (∀ e, Step.err (loopStep { exS0 with rest := exBad }) = some e →
+        e.kind ≠ .prematureEOF ∧ (Step.st (loopStep { exS0 with rest := exBad })).rest ≠ [])) ∧
+    exS1.errs = [⟨.undefinedMacro "x".toList, some 1⟩, ⟨.tokenRequired "'}'", some 1⟩] ∧
+    exS1.rest = "y}\n".toList ∧
+    (Step.st (loopStep { exS0 with rest := exBad ++ exPost })).rest = "y}\n".toList ++ exPost ∧
+    (Step.st (loopStep { exS0 with rest := exBad ++ exPost })).errs = exS1.errs := by
+  have h : Step.err (loopStep { exS0 with rest := exBad }) = none := by decide +kernel
+  refine ⟨⟨by decide +kernel, by decide +kernel, by decide +kernel, fun e he => ?_⟩,
+    by decide +kernel, by decide +kernel, by decide +kernel, by decide +kernel⟩
+  rw [h] at he; cases he
+
+/-- **"Stopped before the end of the text" is not enough for locality.**  The round on
+`@a{k, t = {x y` alone leaves `x y` unread (non-empty) — but it got there by running into the end
+of the text inside the braced string: `PrematureEOF` is reported *at the position where the string
+began*.  In front of `}}` the same round reads a complete entry and reports nothing.  (Same in
+pybtex: `parse_string` raises `PrematureEOF` without consuming what it scanned.) -/
+theorem C10_round_local_neg :
+    (Step.st (loopStep { exS0 with rest := "@a{k, t = {x y".toList })).rest = "x y".toList ∧
+    (Step.st (loopStep { exS0 with rest := "@a{k, t = {x y".toList })).errs
+      = [⟨.prematureEOF, some 1⟩] ∧
+    (Step.st (loopStep { exS0 with rest := "@a{k, t = {x y".toList ++ "}}".toList })).rest = [] ∧
+    (Step.st (loopStep { exS0 with rest := "@a{k, t = {x y".toList ++ "}}".toList })).errs = [] ∧
+    (Step.st (loopStep { exS0 with rest := "@a{k, t = {x y".toList })).db.entries.map
+      (fun e => (e.key, e.fields)) = [("p".toList, [("t".toList, "1".toList)]), ("k".toList, [])] ∧
+    (Step.st (loopStep { exS0 with rest := "@a{k, t = {x y".toList ++ "}}".toList })).db.entries.map
+      (fun e => (e.key, e.fields))
+      = [("p".toList, [("t".toList, "1".toList)]), ("k".toList, [("t".toList, "x y".toList)])] := by
+  decide +kernel
+
+/-- `C10_resync` on what `exBad` left unread: `y}` + line break has no `@`; in front of `exPost`
+the next round starts one line further down, in front of nothing the loop stops -/
+theorem C10_resync_nonvacuous :
+    '@' ∉ exS1.rest ∧ '@' ∈ exPost ∧ '@' ∉ ([] : Str) ∧
+    countNl (exS1.rest ++ exPost) - countNl exPost = 1 ∧
+    (Step.st (loopStep { exS1 with rest := exS1.rest ++ exPost })).db.entries.map (·.key)
+      = ["p".toList, "k".toList, "z".toList] := by
+  decide +kernel
+
+/-- `C10_round_independent`: the round on `exPost` from `exS0`, and from `exS0` in another
+context (one line further down, a problem and a preamble item in front, the entry `k` inserted
+behind the first entry): the hypotheses hold, the round appends the same entry `z` -/
+theorem C10_round_independent_nonvacuous :
+    Inv 2 { exS0 with rest := exPost } ∧ 1 ≤ ({ exS0 with rest := exPost } : St).db.entries.length ∧
+    (∀ key, [exK].any (fun e => lower e.key = lower key) = true →
+      errRep key ∉ (Step.st (loopStep (reframe 1 [⟨.prematureEOF, some 1⟩] 1
+          [exK]
+          ["x".toList] { exS0 with rest := exPost }))).errs.drop
+          ([(⟨.prematureEOF, some 1⟩ : Err)].length + ({ exS0 with rest := exPost } : St).errs.length) ∧
+      Step.err (loopStep (reframe 1 [⟨.prematureEOF, some 1⟩] 1
+          [exK]
+          ["x".toList] { exS0 with rest := exPost })) ≠ some (errRep key)) ∧
+    (Step.st (loopStep (reframe 1 [⟨.prematureEOF, some 1⟩] 1
+        [exK]
+        ["x".toList] { exS0 with rest := exPost }))).db.entries.map (·.key)
+      = ["p".toList, "k".toList, "z".toList] ∧
+    (Step.st (loopStep { exS0 with rest := exPost })).db.entries.map (·.key)
+      = ["p".toList, "z".toList] := by
+  have h1 : (Step.st (loopStep (reframe 1 [⟨.prematureEOF, some 1⟩] 1
+        [exK]
+        ["x".toList] { exS0 with rest := exPost }))).errs.drop
+        ([(⟨.prematureEOF, some 1⟩ : Err)].length + ({ exS0 with rest := exPost } : St).errs.length) = [] := by
+    decide +kernel
+  have h2 : Step.err (loopStep (reframe 1 [⟨.prematureEOF, some 1⟩] 1
+        [exK]
+        ["x".toList] { exS0 with rest := exPost })) = none := by decide +kernel
+  have h3 : ({ exS0 with rest := exPost } : St).errs = [] := by decide +kernel
+  refine ⟨⟨by decide +kernel, by decide +kernel, fun e he => ?_⟩, by decide +kernel,
+    fun key _ => ⟨?_, ?_⟩, by decide +kernel, by decide +kernel⟩
+  · rw [h3] at he; cases he
+  · rw [h1]; exact List.not_mem_nil
+  · rw [h2]; exact fun h => by cases h
+
+/-- the hypotheses of `C10_confined_after` and `C10_confined_after_partial` hold for
+`S = exS0`, `bad = @misc{k, t = x y}`, `post = @misc{z, v = 2}` (each followed by a line break):
+the round on `bad` alone goes on, reports two problems (none `PrematureEOF`), leaves `y}` unread,
+leaves the partial entry `k` behind and macro table, counter and wanted-set alone; the run on
+`bad ++ post` reports nothing further.  And the conclusion, evaluated: `p, k, z` against `p, z`. -/
+theorem C10_confined_after_nonvacuous :
+    Inv 3 { exS0 with rest := exBad ++ exPost } ∧
+    loopStep { exS0 with rest := exBad } = .inr exS1 ∧
+    (∀ e ∈ exS1.errs.drop exS0.errs.length, e.kind ≠ .prematureEOF) ∧
+    '@' ∉ exS1.rest ∧
+    exS1.macros = exS0.macros ∧ exS1.unnamed = exS0.unnamed ∧ exS1.db.wanted = exS0.db.wanted ∧
+    (∀ key, (exS1.db.entries.drop exS0.db.entries.length).any (fun e => lower e.key = lower key) = true →
+      errRep key ∉ (parseLoop ((exBad ++ exPost).length + 1) { exS0 with rest := exBad ++ exPost }).1.errs.drop
+        exS1.errs.length ∧
+      (parseLoop ((exBad ++ exPost).length + 1) { exS0 with rest := exBad ++ exPost }).2 ≠ some (errRep key)) ∧
+    exS1.errs.drop exS0.errs.length
+      = [⟨.undefinedMacro "x".toList, some 1⟩, ⟨.tokenRequired "'}'", some 1⟩] ∧
+    (exS1.db.entries.drop exS0.db.entries.length).map (fun e => (e.key, e.fields))
+      = [("k".toList, [("t".toList, [])])] ∧
+    (parseLoop ((exBad ++ exPost).length + 1) { exS0 with rest := exBad ++ exPost }).1.db.entries.map
+      (fun e => (e.key, e.fields)) = [("p".toList, [("t".toList, "1".toList)]), ("k".toList, [("t".toList, [])]),
+        ("z".toList, [("v".toList, "2".toList)])] ∧
+    (parseLoop (exPost.length + 1) { exS0 with rest := exPost }).1.db.entries.map
+      (fun e => (e.key, e.fields)) = [("p".toList, [("t".toList, "1".toList)]),
+        ("z".toList, [("v".toList, "2".toList)])] := by
+  have h0 : ({ exS0 with rest := exBad ++ exPost } : St).errs = [] := by decide +kernel
+  have h1 : (parseLoop ((exBad ++ exPost).length + 1) { exS0 with rest := exBad ++ exPost }).1.errs.drop
+      exS1.errs.length = [] := by decide +kernel
+  have h2 : (parseLoop ((exBad ++ exPost).length + 1) { exS0 with rest := exBad ++ exPost }).2 = none := by
+    decide +kernel
+  have hw1 : exS1.db.wanted = none := by decide +kernel
+  have hw0 : exS0.db.wanted = none := by decide +kernel
+  refine ⟨⟨by decide +kernel, by decide +kernel, fun e he => ?_⟩,
+    Step.eq_inr (by decide +kernel), by decide +kernel, by decide +kernel,
+    CIDict.ext' (by decide +kernel) (by decide +kernel), by decide +kernel, by rw [hw1, hw0],
+    fun key _ => ⟨?_, ?_⟩, by decide +kernel, by decide +kernel, by decide +kernel, by decide +kernel⟩
+  · rw [h0] at he; cases he
+  · rw [h1]; exact List.not_mem_nil
+  · rw [h2]; exact fun h => by cases h
+
+/-- **The unnamed-entry counter is handed on** (`hun` of `C10_confined_after_partial` cannot be
+dropped).  `@misc{ }` is self-contained in the sense of `C10_confined_after` (one `TokenRequired`,
+only `}` and the line break left unread, macro table untouched), but it leaves the entry
+`unnamed-1` behind and advances the counter: the keyless (itself malformed) entry after it is read
+as `unnamed-2`, alone it is `unnamed-1`.  pybtex does the same (`unnamed_entry_counter`). -/
+theorem C10_confined_after_unnamed_neg :
+    (parseBib "@misc{ }\n@misc{,t=1}\n".toList false none).1.db.entries.map (·.key)
+      = ["unnamed-1".toList, "unnamed-2".toList] ∧
+    (parseBib "@misc{ }\n@misc{,t=1}\n".toList false none).1.errs
+      = [⟨.tokenRequired "entry key", some 1⟩, ⟨.tokenRequired "entry key", some 2⟩] ∧
+    (parseBib "\n@misc{,t=1}\n".toList false none).1.db.entries.map (·.key) = ["unnamed-1".toList] ∧
+    (Step.st (loopStep { rest := "@misc{ }\n".toList, macros := initMacros })).rest = "}\n".toList ∧
+    (Step.st (loopStep { rest := "@misc{ }\n".toList, macros := initMacros })).unnamed = 2 := by
+  decide +kernel
+
+/-- **The wanted-set is handed on** (`hw` cannot be dropped when reading with `wanted_entries`).
+With only `k` wanted, the malformed but self-contained `@misc{k, crossref = {z}, t = x y}` leaves a
+partial entry `k` whose `crossref` makes `z` wanted: the later `@misc{z, v = 2}` is read; without
+the malformed entry it is skipped.  pybtex does the same (`add_entry` extends `wanted_entries`). -/
+theorem C10_confined_after_wanted_neg :
+    (parseBib "@misc{k, crossref = {z}, t = x y}\n@misc{z, v = 2}\n".toList false
+        (some ["k".toList])).1.db.entries.map (·.key) = ["k".toList, "z".toList] ∧
+    (parseBib "\n@misc{z, v = 2}\n".toList false (some ["k".toList])).1.db.entries.map (·.key) = [] := by
+  decide +kernel
+
+/-- the three extra hypotheses of `C10_confined_after_partial` (and, `exS0` being the reader's
+state after a first entry, the remaining ones: `C10_confined_after_nonvacuous`) hold for the
+example -/
+theorem C10_confined_after_partial_nonvacuous :
+    exS1.macros = exS0.macros ∧ exS1.unnamed = exS0.unnamed ∧ exS1.db.wanted = exS0.db.wanted :=
+  ⟨C10_confined_after_nonvacuous.2.2.2.2.1, C10_confined_after_nonvacuous.2.2.2.2.2.1,
+   C10_confined_after_nonvacuous.2.2.2.2.2.2.1⟩
+
+/-- the hypotheses of `C10_confined_after_head` hold for `bad = @misc{k, t = x y}`,
+`post = @misc{z, v = 2}` (each with a line break) in the default setting; the conclusion, evaluated:
+`k, z` with the two problems of `bad`, against `z` without problems -/
+theorem C10_confined_after_head_nonvacuous :
+    loopStep (initSt exBad false none Gen.monthMacros Gen.personRoles) =
+      .inr (Step.st (loopStep (initSt exBad false none Gen.monthMacros Gen.personRoles))) ∧
+    (∀ e ∈ (Step.st (loopStep (initSt exBad false none Gen.monthMacros Gen.personRoles))).errs,
+      e.kind ≠ .prematureEOF) ∧
+    '@' ∉ (Step.st (loopStep (initSt exBad false none Gen.monthMacros Gen.personRoles))).rest ∧
+    (Step.st (loopStep (initSt exBad false none Gen.monthMacros Gen.personRoles))).macros
+      = CIDict.ofPairs Gen.monthMacros ∧
+    (Step.st (loopStep (initSt exBad false none Gen.monthMacros Gen.personRoles))).unnamed = 1 ∧
+    (parseBib (exBad ++ exPost) false none).1.errs
+      = [⟨.undefinedMacro "x".toList, some 1⟩, ⟨.tokenRequired "'}'", some 1⟩] ∧
+    (parseBib (exBad ++ exPost) false none).1.db.entries.map (·.key) = ["k".toList, "z".toList] ∧
+    (parseBib exPost false none).1.db.entries.map (·.key) = ["z".toList] :=
+  ⟨Step.eq_inr (by decide +kernel), by decide +kernel, by decide +kernel,
+   CIDict.ext' (by decide +kernel) (by decide +kernel), by decide +kernel, by decide +kernel,
+   by decide +kernel, by decide +kernel⟩
 
 end Pybtex.Props
